@@ -127,6 +127,7 @@ fn mk(kind: Kind, dim: DimMode, field: Field, problem: Problem, p: Params, idx: 
         kind,
         dim,
         field,
+        data: if idx % 3 == 1 { DataMode::Counter } else { DataMode::Unit },
         ops: base_ops(dim, kind, p, idx),
         problem,
         y0: if idx % 4 == 3 { 0.25 } else { 1.0 },
@@ -332,6 +333,12 @@ pub fn run_group(seed: u64, gi: u64, base: &InstSpec, tier: &FTier, st: &mut Sta
             }
             if (k + gi) % 4 == 1 {
                 drives.push(Drive::NthSkip(1 + ((k / 4 + gi) % 4) as u8));
+            }
+            if (k + gi) % 6 == 3 {
+                drives.push(Drive::PollThenCount);
+            }
+            if (k + gi) % 6 == 5 {
+                drives.push(Drive::PollThenLast);
             }
             if (k + gi) % 13 == 3 {
                 drives.push(Drive::Count);
